@@ -1,7 +1,7 @@
 SPECIFICATION Spec
 CONSTANT MaxCalls = 2
 CONSTANT MaxPerPeer = 2
-CONSTANT KindSet = {"NowOk", "LaterOk", "LaterUndecl", "Never"}
+CONSTANT KindSet = {"NowOk", "LaterUndecl", "Never"}
 CONSTANT Flags = {TRUE, FALSE}
 CONSTANT QC = {TRUE, FALSE}
 VIEW View
